@@ -170,6 +170,9 @@ func runC14(c *Ctx) {
 				if lf.Kind() == reflect.Slice && c.R.Chance(30) {
 					lf.Set(reflect.MakeSlice(lf.Type(), 0, 0)) // empty but non-nil: DeepEqual says "set"
 				}
+				if lf.Kind() == reflect.Ptr && c.R.Chance(50) {
+					lf.Set(reflect.New(lf.Type().Elem())) // present but all-zero (e.g. "resp":{"max":0,"ttl":0}): still a permission of its own
+				}
 			default:
 				g := &Gen{r: c.R, maxDepth: 5, plain: true}
 				g.fill(reflect.ValueOf(&u.UserPermissionLimits).Elem(), 0, "x")
